@@ -55,6 +55,7 @@ template<class V> static void run(const VpCase* c, VpOutcome* o) {
     {
         RoundGuard g(mode);
         before = FpEnv::take();
+        poison_below(al[0] ^ op);
         if (op == OP_SC_SQRT) { T x = elem<T>::from_bits(al[0]), y; do_scalar_sqrt<T>(&x, &y); got[0] = elem<T>::to_bits(y); }
         else { do_op<V>(op, &a, &b, &r, &r2); rd<V>(r, got); rd<V>(r2, got2); }
         after = FpEnv::take();
